@@ -31,3 +31,6 @@ for nid in ids:
         print(nid, {k: v for k, v in res.items() if v != "ok"} or "all 20 checks OK")
     finally:
         shutil.rmtree(scratch, ignore_errors=True)
+sys.path.insert(0, os.path.join(V, "tools"))
+import restore_gen
+restore_gen.restore()      # lean/MirGen back to what the unchanged /repo generates
